@@ -1058,28 +1058,43 @@ def run(ctx):
         ctx.violation("proof", "runner-crashed", "model runner failed: " + err[-1500:], {"theorem_or_obligation": "model runner"})
         ctx.finish()
 
+    import bisect
+    import re as _re
+    stateful_idx = [j for j, l in enumerate(lines) if l.split(None, 1)[0] not in ("CL", "ID", "FA")]
+    maker = {}
+    for j in stateful_idx:
+        l = lines[j]
+        if l.startswith("UP "):
+            maker[kvs(l).get("fid")] = l
+        elif l.startswith("INFLIGHT "):
+            maker[l.split()[1]] = l
+    tpl_re = _re.compile(r"(?:^|\+)[fF](\d+)")
+
     def prefix(i):
         """replay of a stateful line = all stateful lines up to it"""
-        if lines[i].split()[0] in ("CL", "ID"):
+        k0 = lines[i].split(None, 1)[0]
+        if k0 in ("CL", "ID"):
             return {"case": lines[i]}
-        st = [l for l in lines[:i + 1] if l.split()[0] not in ("CL", "ID", "FA")]
-        if lines[i].split()[0] == "FA":
-            st = ["USER 1", lines[i]]
-        if lines[i].split()[0] in ("UP", "SV"):
+        if k0 == "FA":
+            return {"case": lines[i], "lines": ["USER 1", lines[i]]}
+        if k0 in ("UP", "SV"):
             # a request line depends only on the users and on the uploads its URL template names
-            import re
-            ks = set(re.findall(r"(?:^|\+)[fF](\d+)", kvs(lines[i]).get("url", "")))
-            made = [l for l in lines[:i] if (l.startswith("UP ") and kvs(l).get("fid") in ks) or
-                    (l.startswith("INFLIGHT ") and l.split()[1] in ks)]
-            st = ["USER 1", "USER 2"] + made + [lines[i]]
+            ks = tpl_re.findall(kvs(lines[i]).get("url", ""))
+            made = [maker[k] for k in dict.fromkeys(ks) if k in maker and maker[k] != lines[i]]
+            return {"case": lines[i], "lines": ["USER 1", "USER 2"] + made + [lines[i]]}
+        n = bisect.bisect_right(stateful_idx, i)
         # setup (users, fixtures) + the tail; uploads made in the cut part are then unknown ids
-        return {"case": lines[i], "lines": st[:60] + st[-3000:] if len(st) > 3060 else st}
+        idx = stateful_idx[:n] if n <= 3060 else stateful_idx[:60] + stateful_idx[n - 3000:n]
+        return {"case": lines[i], "lines": [lines[j] for j in idx]}
 
     fails = monitors(lines, impl) + (history_expectations(g, lines, impl) if g is not None else [])
     known = {f["key"] for f in ctx.load_findings() if f["property"] == ctx.pid}
     unknown_fails = [f for f in fails if f[0] not in known]
+    per_law = {}
     for law, i, detail in fails:
-        rp = prefix(i)
+        per_law[law] = per_law.get(law, 0) + 1
+        # full replays for the first failures of each law; the rest carry the failing line only
+        rp = prefix(i) if per_law[law] <= 25 else {"case": lines[i]}
         rp.update({"impl": impl[i], "law": law, "law_text": LAWS.get(law, ""), "detail": detail})
         ctx.violation("monitor", law, "law %s fails on the implementation: %s -> %s (%s)" % (law, lines[i][:200], impl[i][:200], detail), rp)
     mism = [(i, l, a.split(" |")[0].rstrip(), m) for i, (l, a, m) in enumerate(zip(lines, impl, model)) if a.split(" |")[0].rstrip() != m]
